@@ -47,7 +47,7 @@ def zoo_task(t):
         # densities also in single precision, where a row 300 nats down the tail underflows unless the
         # reduction is stabilised row by row
         dts = [torch.float32] if e.has("umnn") else [torch.float64] + ([torch.float32] if e.kind in ("dist", "flow") and not e.has("discrete") else [])
-        for dt, variant in [(d_, v_) for d_ in dts for v_ in ["prepared"] + (["pristine"] if e.has("needs_init") and d_ == dts[0] else [])]:
+        for dt, variant in [(d_, v_) for d_ in dts for v_ in ["prepared"] + (["pristine"] if e.has("needs_init") and d_ == dts[0] else []) + (["prepared/after-sample"] if e.kind == "flow" and e.has("sample") and d_ == dts[0] else [])]:
             tol = 2e-4 if dt == torch.float32 else 1e-9
             if dt == torch.float32 and not e.has("umnn"):
                 variant = "prepared/float32"
@@ -66,7 +66,19 @@ def zoo_task(t):
                 m.load_state_dict(sd0)
                 if dt == torch.float64:
                     m = m.double()
-                return m.eval()
+                m.eval()
+                if variant.endswith("after-sample"):
+                    # the evaluation-mode model has been sampled from before it is evaluated
+                    with torch.no_grad():
+                        try:
+                            m.sample(2, context=c[:2].to(dt)) if c is not None else m.sample(2)
+                        except Exception:  # noqa  (e.g. a double-precision flow over a StandardNormal base)
+                            mf = e.build(seed + 31)
+                            mf.load_state_dict(sd0)
+                            mf.eval()
+                            mf.sample(2, context=c[:2].float()) if c is not None else mf.sample(2)
+                            m = mf.double() if dt == torch.float64 else mf
+                return m
 
             if e.kind == "transform":
                 ops = ["forward"] + (["inverse"] if e.has("inv") else [])
